@@ -306,36 +306,70 @@ func (rc *runCtx) minimise(f *failure, shrink bool) *replayFile {
 		tape = rawTape(f.Seed, f.Run, 1<<15)
 	}
 	timeout := 300 * time.Second
-	first := pool[0].eval(tape, false, timeout)
-	if vkey(first.Res) != f.key() {
-		// a crash signature can differ between the search process and the replay (other
-		// goroutine's stack first); accept any crash for a crash.
-		if !(f.Crash && first.Crashed) {
-			fmt.Fprintf(os.Stderr, "replay of run %d gave %q, search gave %q\n", f.Run, vkey(first.Res), f.key())
-			return nil
+	// Replay in a fresh process. A simulated run is a pure function of its tape unless the
+	// code under test has concurrency the simulator does not own (e.g. a change that makes
+	// handlers race inside one step): then a replay may show another violation, or none.
+	// Any violation that a replay shows is a reproduced violation; it is reported with a
+	// note, and only a failure that no replay confirms makes the check undecided.
+	var first *evalResult
+	want := f.key()
+	stable := false
+	var seenKeys []string
+	for try := 0; try < 4; try++ {
+		r := pool[try%len(pool)].eval(tape, false, timeout)
+		k := vkey(r.Res)
+		seenKeys = append(seenKeys, k)
+		if k == want || f.Crash && r.Crashed {
+			first, stable = r, try == 0
+			want = k
+			break
+		}
+		if k != "" && first == nil {
+			first = r
 		}
 	}
-	sh := &shrinker{rc: rc, pool: pool, want: vkey(first.Res), best: tape, bestRes: first.Res,
+	if first == nil {
+		fmt.Fprintf(os.Stderr, "replays of run %d gave %q, search gave %q\n", f.Run, seenKeys, f.key())
+		return nil
+	}
+	if vkey(first.Res) != want {
+		want = vkey(first.Res)
+	}
+	sh := &shrinker{rc: rc, pool: pool, want: want, best: tape, bestRes: first.Res,
 		maxTries: 1200, deadline: time.Now().Add(150 * time.Second), timeout: 120 * time.Second}
 	if !first.Crashed && first.Res.Tape != nil {
 		sh.best = trimTape(first.Res.Tape)
 	}
 	before := len(sh.best)
-	if shrink {
+	unshrunk := sh.best
+	if shrink && stable {
 		sh.run()
 	}
 	// final replay with the full log, in a fresh process
-	fresh := rc.newServer(1)
-	final := fresh.eval(sh.best, true, timeout)
-	fresh.stop()
-	if vkey(final.Res) != sh.want {
-		fmt.Fprintf(os.Stderr, "minimised tape gave %q, wanted %q\n", vkey(final.Res), sh.want)
+	var final *evalResult
+	for try := 0; try < 5; try++ {
+		fresh := rc.newServer(1)
+		final = fresh.eval(sh.best, true, timeout)
+		fresh.stop()
+		if vkey(final.Res) == sh.want {
+			break
+		}
+		if try == 2 {
+			sh.best = unshrunk // the minimised tape is not stable: fall back
+		}
+		stable = false
+	}
+	if vkey(final.Res) == "" {
+		fmt.Fprintf(os.Stderr, "final replay gave no violation, wanted %q\n", sh.want)
 		return nil
 	}
 	rf := &replayFile{Property: rc.spec.property, Engine: rc.spec.name, Seed: f.Seed, Run: f.Run, RepoHead: repoHead(rc.cfg.repo),
 		Tape: sh.best, Violation: final.Res.Violation, LogSHA: final.Res.LogHash, Decoded: final.Res.Decoded, Log: final.Res.LogLines,
 		Crashed: final.Crashed,
 		Shrink:  map[string]any{"tape_len_before": before, "tape_len_after": len(sh.best), "attempts": sh.attempts}}
+	if !stable {
+		rf.Shrink["unstable"] = fmt.Sprintf("replays of this tape do not all agree (search: %s; replays: %v): the code under test has concurrency inside one simulated step, which the simulator does not own; the violation recorded here is the one the last replay showed", f.key(), seenKeys)
+	}
 	return rf
 }
 
